@@ -35,10 +35,11 @@ Definition lift {A} (r : res A) : out A := match r with Ok a => Ret a | Oob => F
 Definition rdo (s : list N) (i : N) : out N := lift (rdr s i).
 
 Record variant := { fix_memmove : bool; fix_loops : bool; fix_arity : bool; fix_tm : bool }.
-(* THE SWITCH: [Cur] is the code as /repo has it.  When a fix of /verif/patches/fix-C07-*.diff is
-   committed to /repo, set its flag to true here (and delete the corresponding *_refuted theorem of
-   Props/Properties_C07.v, which then no longer compiles). *)
-Definition Cur : variant := {| fix_memmove := false; fix_loops := false; fix_arity := false; fix_tm := false |}.
+(* THE SWITCH: [Cur] is the code as /repo has it.  The four fixes of /verif/patches/fix-C07-*.diff are
+   committed (06641a7 memmove, b880e62 intlv-loops, e2bc16d arity-uninit, c06b512 type-match): all flags
+   are true.  A flag set back to false models the code before that fix (regression lemmas of
+   Text/SyntheticProofs.v are stated for every variant). *)
+Definition Cur : variant := {| fix_memmove := true; fix_loops := true; fix_arity := true; fix_tm := true |}.
 Definition Fixed : variant := {| fix_memmove := true; fix_loops := true; fix_arity := true; fix_tm := true |}.
 
 Definition MAXD : N := HWLOC_SYNTHETIC_MAX_DEPTH.
